@@ -112,6 +112,30 @@ template <typename T> Sx pure_case(std::string const& cmd, Sx const& a)
         if (!e.exact()) throw std::runtime_error("select: canonical number not reproduced by the engine");
         return Sx::list({Sx::num(r)});
     }
+    if (cmd == "cbreuse")
+    {
+        // ONE built-in callback object invoked directly on a checkpoint with n results and then on another checkpoint, with another history,
+        // that holds n + 1 (what a user who keeps the callback in a variable and drives several runs does): its answer for the second must be
+        // the answer a fresh callback gives.  Self-checking, C++ only (args: n calls seed)
+        std::size_t const n = a.at(0).N_(), calls = a.at(1).N_();
+        Ctx ctx; g_ctx = &ctx; ctx.seed = a.at(2).N_();
+        auto f1 = [](hep::mc_point<T> const& p) { return p.point()[0] < T(0.1) ? T(40.0) : T(0.5); };          // noisy
+        auto f2 = [](hep::mc_point<T> const& p) { return T(1.0) + T(0.01) * p.point()[0]; };                    // quiet
+        typedef PChk<T> C;
+        C a1 = hep::plain(hep::make_integrand<T>(f1, 1), std::vector<std::size_t>(n, calls), hep::make_plain_chkpt<T, script_engine>(script_engine(0)), ScriptCb<C>{{}});
+        C b1 = hep::plain(hep::make_integrand<T>(f2, 1), std::vector<std::size_t>(n + 1, calls), hep::make_plain_chkpt<T, script_engine>(script_engine(5000)), ScriptCb<C>{{}});
+        auto const all = hep::accumulate<hep::weighted_with_variance>(b1.results().begin(), b1.results().end());
+        T const rel = all.error() / fabs(all.value());
+        std::size_t differ = 0, tried = 0;
+        for (T factor : {T(0.5), T(0.9), T(1.1), T(2.0), T(30.0)})
+        {
+            hep::callback<C> shared(hep::callback_mode::silent, "", rel * factor), fresh(hep::callback_mode::silent, "", rel * factor);
+            (void) shared(a1);
+            bool const r1 = shared(b1), r2 = fresh(b1);
+            ++tried; if (r1 != r2) ++differ;
+        }
+        return Sx::list({Sx::sym(differ == 0 ? "ok" : "violation"), Sx::num(tried), Sx::num(differ)});
+    }
     if (cmd == "userloop")
     {
         // VEGAS driven by the user's own loop (chkpt.pdf(), vegas_iteration, chkpt.add(), chkpt.rollback()) and hep::vegas with a callback
